@@ -150,6 +150,15 @@ by move=> R conj cK n e P A HP H; split; [exact: permute_sound|exact: transform_
 Qed.
 Print Assumptions C03_site_permute_transform.
 
+(* QobjEvo.__call__(t) with any number of terms: the isherm flag it attaches
+   (generated from qobjevo.pyx) is sound for the sum it attaches it to *)
+Theorem C03_site_qobjevo_call :
+  forall (R : fieldType) (conj : {rmorphism R -> R}) n (t0 : qterm R n) (ts : seq (qterm R n)),
+  qt_ok conj t0 -> all_ok conj ts ->
+  sound_h conj (qevo_call t0 ts).1 (qevo_call t0 ts).2.
+Proof. move=> R conj n t0 ts; exact: qevo_call_sound. Qed.
+Print Assumptions C03_site_qobjevo_call.
+
 (* expand_operator forwards the flags of the tensored operator through the
    permutation of tensor factors *)
 Theorem C03_site_expand_operator :
